@@ -234,6 +234,31 @@ func CLIPrintIdentity(p *core.Program, r *core.Report, rule string) {
 				r.Bad(rule, c1, p.Pos(prints[0].Pos()), "stdout is written by fmt."+name+" in a shape other than Printf(\"%s\", v) / Print(v): the bytes on stdout are not exactly the library's string")
 			}
 		}
+		// 1b. no successful return without the print: every `return nil` of the command is dominated by the output step
+		if len(prints) == 1 {
+			outBlock := prints[0].Block()
+			if emitCall != nil {
+				outBlock = emitCall.Block()
+			}
+			badRet := ""
+			for _, b := range sf.Blocks {
+				for _, in := range b.Instrs {
+					ret, ok := in.(*ssa.Return)
+					if !ok || len(ret.Results) == 0 {
+						continue
+					}
+					k, isK := ret.Results[len(ret.Results)-1].(*ssa.Const)
+					if !isK || !k.IsNil() {
+						continue
+					}
+					if !outBlock.Dominates(b) {
+						badRet = p.Pos(ret.Pos())
+					}
+				}
+			}
+			r.Check(badRet == "", rule, key+": every successful return follows the print", p.Pos(fd.Decl.Pos()), "each `return nil` is dominated by the output step",
+				"the command can return success without printing (return at "+badRet+"): for that input the CLI's stdout (and -f file) is empty while the library returns a report - an exposure section, dot nodes, a csv/md header or json `[]`")
+		}
 		// 2. the printed value is result #0 of analyzer.ToString(...)
 		c2 := key + ": the printed value is the string returned by " + sp.toString
 		var toStr *ssa.Call
